@@ -63,7 +63,14 @@ pub fn round_trip(src: &str) -> Verdict {
         Err(p) => return Verdict::Bad(format!("panic/{}", p.file()), format!("parse of the rendering panicked at {}: {}", p.site(), p.msg)),
     }
     // every line on its own (the form used by the program pane and the byte-code listing)
+    // (this loop re-parses a program per line: in texts of hundreds of lines a line equal to one already
+    // judged is skipped, except the last one)
+    let mut judged: std::collections::HashSet<String> = Default::default();
+    let long = asm.lines.len() > 300;
     for (i, l) in asm.lines.iter().enumerate() {
+        if long && i + 1 != asm.lines.len() && !judged.insert(format!("{:?}", l)) {
+            continue;
+        }
         let lt = match mc::catch(|| format!("{}", l)) {
             Ok(t) => t,
             Err(p) => return Verdict::Bad(format!("panic/{}", p.file()), format!("Display for Line panicked at {}: {}", p.site(), p.msg)),
@@ -210,6 +217,7 @@ pub fn run() {
     run_family("line-shapes", &corpus::shape_programs(), &mut fam, &mut all);
     run_family("label-rules", &corpus::label_programs(), &mut fam, &mut all);
     run_family("character-classes", &corpus::char_class_programs(), &mut fam, &mut all);
+    run_family("long-texts", &corpus::long_programs(), &mut fam, &mut all);
     let vals = value_programs();
     run_family("values-comments-labels", &vals, &mut fam, &mut all);
     let repo: Vec<String> = corpus::repo_programs().into_iter().map(|p| p.1).collect();
